@@ -153,23 +153,28 @@ def h_build(L, ty, n, with_ns, via='ctor'):
     return 'built'
 
 
-def h_build_ns(L, ty, hole):
-    """a free namespace through the typed and the type-agnostic builder: same namespace; maven refused exactly when no namespace is present"""
+def h_build_ns(L, ty, hole, meth='with_namespace'):
+    """a free namespace / version / subpath through the typed and the type-agnostic builder: same value reported; maven refused
+    exactly when no namespace is present"""
     I = L.I
     ns = L.sym_bytes('h', hole[2])
     if len(hole) > 3:
         L.restrict(ns, hole[3])
     L.assume_utf8(ns)
-    steps = [('with_namespace', ns)]
-    reqs = [{'op': 'build_typed', 'T': 'Purl', 'type': SymStr(list(ty.encode())), 'name': SymStr(list(b'n')), 'steps': [['with_namespace', SymStr(ns)]]},
-            {'op': 'build', 'T': 'String', 'type': SymStr(list(ty.encode())), 'name': SymStr(list(b'n')), 'steps': [['with_namespace', SymStr(ns)]]}]
+    fld = {'with_namespace': 'ns', 'with_version': 'ver', 'with_subpath': 'sub'}[meth]
+    pre = [] if meth == 'with_namespace' else [('with_namespace', list(b'g'))]
+    steps = pre + [(meth, ns)]
+    sreq = [[m, SymStr(a)] for m, a in steps]
+    reqs = [{'op': 'build_typed', 'T': 'Purl', 'type': SymStr(list(ty.encode())), 'name': SymStr(list(b'n')), 'steps': sreq},
+            {'op': 'build', 'T': 'String', 'type': SymStr(list(ty.encode())), 'name': SymStr(list(b'n')), 'steps': sreq}]
     req = {'op': 'multi', 'reqs': reqs}
     L.expect_native(req, {})
     outs = []
     try:
         for T in ('Purl', 'String'):
             b = b_new(I, T, mk_type(I, T, list(ty.encode())), list(b'n'))
-            b = b_call(I, T, b, 'with_namespace', ns)
+            for m, a in steps:
+                b = b_call(I, T, b, m, a)
             r = b_build(I, T, b)
             outs.append(r)
     except Panic as e:
@@ -177,22 +182,21 @@ def h_build_ns(L, ty, hole):
         return 'panic'
     rP, rS = outs
     if rS.variant == 'Err':
-        L.fail('the type-agnostic builder refuses a namespace')
+        L.fail('the type-agnostic builder refuses a %s' % meth[5:])
         return 'rejected'
-    present = any(not beq(I, x, 0x2F) for x in ns)          # a namespace with at least one non-empty segment
-    only_slashes = len(ns) > 0 and not present                 # unspecified for maven (a namespace made of separators only)
+    present = meth != 'with_namespace' or any(not beq(I, x, 0x2F) for x in ns)          # a namespace with at least one non-empty segment
     if rP.variant == 'Err':
         L.expect_native(req, {'res': [{'err': err_name(rP.fields[0])}, {}]})
         if ty == 'maven' and not present:
             return 'maven-no-namespace'
         L.fail('typed builder refuses (%s) a %s PURL whose namespace is present' % (err_name(rP.fields[0]), ty))
         return 'rejected'
-    if ty == 'maven' and len(ns) == 0:
+    if ty == 'maven' and meth == 'with_namespace' and len(ns) == 0:
         L.fail('maven PURL without namespace built')
         return 'built'
     aP, aS = accessors(I, 'Purl', rP.fields[0]), accessors(I, 'String', rS.fields[0])
     L.expect_native(req, {'res': [{'ok': obs_expect(aP)}, {'ok': obs_expect(aS)}]})
-    same(L, 'namespace', aP['ns'], aS['ns'])
+    same(L, {'ns': 'namespace', 'ver': 'version', 'sub': 'subpath'}[fld], aP[fld], aS[fld])
     return 'built'
 
 
@@ -212,6 +216,10 @@ def queries(tier):
             addp(['pkg:%s/' % ty, ('hole', 'h', n), '/n@1?k=v#s'])
         up = ty.upper()
         addp(['pkg:%s/ns/' % up, ('hole', 'h', 2)])
+        # the other components of every type: version, qualifier value and subpath are exactly the type-agnostic parser's
+        addp(['pkg:%s/ns/n@' % ty, ('hole', 'h', 3 if th else 2)])
+        addp(['pkg:%s/ns/n@1?k=' % ty, ('hole', 'h', 2), '#', ('hole', 'g', 2)])
+        addp(['pkg:%s/' % ty, ('hole', 'h', 2), '/n@', ('hole', 'g', 2)])
         for n in lens(4 if th else 3, 1):
             qs.append(Query('build %s name=⟦%d⟧ +ns' % (ty, n), h_build, {'ty': ty, 'n': n, 'with_ns': True}, bound='Purl::builder(%s, every valid-UTF-8 string of %d bytes).with_namespace("ns").build()' % (ty, n)))
         for n in lens(2):
@@ -227,6 +235,10 @@ def queries(tier):
         for hole in [('hole', 'h', n) for n in lens(3 if th else 2)] + [('hole', 'h', n, b'/a') for n in ((4, 5, 6) if th else (4, 5))]:
             qs.append(Query('build %s namespace=%s typed|String' % (ty, hole_text(hole)), h_build_ns, {'ty': ty, 'hole': hole},
                             bound='Purl::builder(%s, "n").with_namespace(%s) next to the type-agnostic builder' % (ty, hole_text(hole))))
+        for meth in ('with_version', 'with_subpath'):
+            hole = ('hole', 'h', 3 if th else 2)
+            qs.append(Query('build %s %s=%s typed|String' % (ty, meth[5:], hole_text(hole)), h_build_ns, {'ty': ty, 'hole': hole, 'meth': meth},
+                            bound='Purl::builder(%s, "n").with_namespace("g").%s(%s) next to the type-agnostic builder' % (ty, meth, hole_text(hole))))
     # type strings next to every known name: one / two free bytes appended, prepended, inserted or substituted
     for ty in NAMES:
         for nm in (ty, ty.upper()) if th else (ty,):
@@ -252,20 +264,22 @@ def confirm(v, resp):
         rP, rS = resp['res']
         r0 = req['reqs'][0]
         ty = bytes.fromhex(r0['type']).decode()
-        ns = bytes.fromhex(r0['steps'][0][1])
+        meth = r0['steps'][-1][0]
+        fld = {'with_namespace': 'ns', 'with_version': 'ver', 'with_subpath': 'sub'}[meth]
+        ns = bytes.fromhex(r0['steps'][-1][1])
         if 'panic' in rP or 'panic' in rS:
             return 'panicked'
         if 'ok' not in rS:
             return 'the type-agnostic builder refuses the namespace %r' % ns
-        present = ns.strip(b'/') != b''
+        present = meth != 'with_namespace' or ns.strip(b'/') != b''
         if 'ok' not in rP:
             if ty == 'maven' and not present:
                 return None
             return 'the typed builder refuses (%s) a %s PURL with the namespace %r' % (rP.get('err'), ty, ns)
-        if ty == 'maven' and ns == b'':
+        if ty == 'maven' and meth == 'with_namespace' and ns == b'':
             return 'maven PURL without namespace built'
-        if rP['ok']['ns'] != rS['ok']['ns']:
-            return 'namespace %r is reported as %r by the typed and %r by the type-agnostic PURL' % (ns, rP['ok']['ns'] and hx(rP['ok']['ns']), rS['ok']['ns'] and hx(rS['ok']['ns']))
+        if rP['ok'][fld] != rS['ok'][fld]:
+            return '%s %r is reported as %r by the typed and %r by the type-agnostic PURL' % (meth[5:], ns, rP['ok'][fld] and hx(rP['ok'][fld]), rS['ok'][fld] and hx(rS['ok'][fld]))
         return None
     if req['op'] == 'build_typed':
         ty = bytes.fromhex(req['type']).decode()
